@@ -183,6 +183,9 @@ func pathOfOpt(v ssa.Value, resolveFree bool, depth int) *Path {
 	case *ssa.Parameter, *ssa.Global:
 		return &Path{Root: v}
 	case *ssa.Alloc:
+		if prm := spilledParam(x); prm != nil {
+			return &Path{Root: prm}
+		}
 		return &Path{Root: x}
 	case *ssa.Phi:
 		// all edges the same path?
@@ -409,4 +412,48 @@ func withAnon(fn *ssa.Function, f func(*ssa.Function)) {
 	for _, a := range fn.AnonFuncs {
 		withAnon(a, f)
 	}
+}
+
+// spilledParam: go/ssa spills a parameter that is captured by a closure into a heap Alloc
+// at function entry. When the Alloc's only store is that spill, the Alloc denotes the parameter.
+func spilledParam(a *ssa.Alloc) *ssa.Parameter {
+	refs := a.Referrers()
+	if refs == nil {
+		return nil
+	}
+	var prm *ssa.Parameter
+	stores := 0
+	for _, r := range *refs {
+		if st, ok := r.(*ssa.Store); ok && st.Addr == a {
+			stores++
+			if p, ok := st.Val.(*ssa.Parameter); ok {
+				prm = p
+			}
+		}
+	}
+	if stores == 1 && prm != nil {
+		return prm
+	}
+	return nil
+}
+
+// singleStoredValue returns the only value ever stored into a local variable Alloc (nil if
+// there are zero or several stores, or its address escapes other than into closures).
+func singleStoredValue(a *ssa.Alloc) ssa.Value {
+	refs := a.Referrers()
+	if refs == nil {
+		return nil
+	}
+	var val ssa.Value
+	stores := 0
+	for _, r := range *refs {
+		if st, ok := r.(*ssa.Store); ok && st.Addr == a {
+			stores++
+			val = st.Val
+		}
+	}
+	if stores == 1 {
+		return val
+	}
+	return nil
 }
